@@ -7028,3 +7028,64 @@ def c03_enum_type_is_restored(env):
 
 REGISTRY.setdefault("C03", []).append(c03_enum_type_is_restored)
 REGISTRY.setdefault("C05", []).append(lambda env: [_retagged(x, "C05", "c05_deserialize_enum_restores_the_enum_kind") for x in c03_enum_type_is_restored(env)])
+
+
+# ---- C05: defaults that the codec elides / fills in are the specification's defaults --------------------------
+
+
+_SPEC_DEFAULTS = [
+    # (return type in the MIR signature, value, width, where the spec says so)
+    (r"-> (messaging::)?(format::)?Priority$", 4, 8, "header.priority: default 4 (AMQP 1.0 part 3, 3.2.1)"),
+    (r"-> (performatives::)?(open::)?MaxFrameSize$", 0xFFFFFFFF, 32, "open.max-frame-size: default 4294967295 (part 2, 2.7.1)"),
+    (r"-> (performatives::)?(open::)?ChannelMax$", 0xFFFF, 16, "open.channel-max: default 65535 (part 2, 2.7.1)"),
+]
+
+
+def c05_spec_defaults(env):
+    o = Obligation("c05_elided_fields_stand_for_the_specifications_defaults", "C05")
+    o.desc = "fields marked as having a default are elided by the encoder when they equal Default::default() and filled with it by the decoder when the peer sends null or leaves them out; for the newtypes whose AMQP default is not the zero value (header priority, open max-frame-size and channel-max) Default::default() is the value the specification names -- otherwise a value equal to the wrong default is written as `absent` (meaning something else to every peer) and a peer's elided field decodes to the wrong value, while every round trip within the crate still agrees"
+    t = env.crate("fe2o3-amqp-types")
+    fns = []
+
+    def replay(m):
+        return "spec_defaults", (lambda js: js.get("panic") or not js["as_specified"])
+
+    for sig, val, w, where in _SPEC_DEFAULTS:
+        cands = [fn for name, fn in t.fns.items() if re.search(r"::default$", name) and re.search(sig, fn.sig.strip().rstrip("{").strip())]
+        if len(cands) != 1:
+            o.prove(f"{where}: exactly one Default impl found ({len(cands)})", [], z3.BoolVal(False), replay=replay)
+            continue
+        fn = cands[0]
+        fns.append(fn.name)
+        # named std constants are printed by name: `const core::num::<impl u32>::MAX`
+        import copy as _copy
+
+        fn = _copy.deepcopy(fn)
+        for bb, (stmts, term) in list(fn.blocks.items()):
+            def lit(m_):
+                bits = int(m_.group(2))
+                signed = m_.group(1) == "i"
+                which = m_.group(3)
+                v_ = ((1 << (bits - 1)) - 1 if signed else (1 << bits) - 1) if which == "MAX" else (-(1 << (bits - 1)) if signed else 0)
+                return f"const {v_}_{m_.group(1)}{bits}"
+            fn.blocks[bb] = ([re.sub(r"const core::num::<impl ([ui])(\d+)>::(MAX|MIN)", lit, x) for x in stmts], term)
+        ex = mir.Executor(t.fns, t.structs, t.enums, max_visits=2, consts=t.consts)
+        paths = ex.run(fn, {})
+        for i, p in enumerate(paths):
+            if p.end != "return":
+                continue
+            r = p.ret
+            v = r.get(0) if isinstance(r, mir.Agg) else r
+            if v is None or not z3.is_expr(v):
+                o.prove(f"{where}: path{i}: the default is a known constant", ex.assumptions + p.cond, z3.BoolVal(False), replay=replay)
+            else:
+                vv = v if v.size() == w else (z3.Extract(w - 1, 0, v) if v.size() > w else z3.ZeroExt(w - v.size(), v))
+                o.prove(f"{where}: path{i}", ex.assumptions + p.cond, vv == z3.BitVecVal(val, w), replay=replay)
+    o.functions = fns
+    o.bounds = ["the three Default impls; every path"]
+    o.assumes = ["the derive macro elides / fills with Default::default() (serde_amqp_derive; its output for small composites is C05's Kani harnesses)"]
+    o.cover("defaults found", [z3.BoolVal(len(fns) == len(_SPEC_DEFAULTS))])
+    return [o]
+
+
+REGISTRY.setdefault("C05", []).append(c05_spec_defaults)
